@@ -42,6 +42,7 @@ inductive SStep
   | w (s key : Nat) (op : WOp)
   | tick (s j : Nat)          -- `GossipTick` at store s; `random.choice` picks peer number j
   | dl (m : Nat)              -- the network delivers message m (again)
+  | round (s j : Nat)         -- a lossless gossip round: tick at s, the push is delivered, so is the answer
 deriving Repr, DecidableEq
 
 /-- a gossip message: `keys` are the keys of the serialised state with the node id each
@@ -124,31 +125,51 @@ def PSt.mergeKeys (v : Variant) (p : PSt) (d m : Nat) : List (Nat × Nat) → PS
       let r := PSt.mergeKeys v p' d m rest
       (r.1, (key, if v = .repaired then XOp.base (.merge d (p.n + m)) else .copy d (p.n + m)) :: r.2)
 
+def PSt.tickStep (v : Variant) (p : PSt) (s j : Nat) : PSt × List (Nat × XOp) :=
+  match p.peersOf s with
+  | [] => (p, [])
+  | q :: qs => p.emit v s ((q :: qs).getD (j % (q :: qs).length) q) true
+
+def PSt.dlStep (v : Variant) (p : PSt) (m : Nat) : PSt × List (Nat × XOp) :=
+  match p.msgs[m]? with
+  | none => (p, [])
+  | some msg =>
+    let r := p.mergeKeys v msg.dst m msg.keys
+    if msg.push && (r.1.peersOf msg.dst).contains msg.src then
+      let e := r.1.emit v msg.dst msg.src false
+      (e.1, r.2 ++ e.2)
+    else r
+
 def PSt.step (v : Variant) (kind : Kind) (p : PSt) : SStep → PSt × List (Nat × XOp)
   | .w s key op =>
     let p' := if p.holds s key then p else { p with held := p.held ++ [((s, key), s)] }
     match wop v kind s ((p'.nidOf s key).getD s) op with
     | some x => (p', [(key, x)])
     | none => (p', [])
-  | .tick s j =>
-    match p.peersOf s with
-    | [] => (p, [])
-    | q :: qs => p.emit v s ((q :: qs).getD (j % (q :: qs).length) q) true
-  | .dl m =>
-    match p.msgs[m]? with
-    | none => (p, [])
-    | some msg =>
-      let r := p.mergeKeys v msg.dst m msg.keys
-      if msg.push && (r.1.peersOf msg.dst).contains msg.src then
-        let e := r.1.emit v msg.dst msg.src false
-        (e.1, r.2 ++ e.2)
-      else r
+  | .tick s j => p.tickStep v s j
+  | .dl m => p.dlStep v m
+  | .round s j =>
+    -- the tick, then the delivery of the push it built (if any), then of the answer (if any)
+    let m := p.msgs.length
+    let r1 := p.tickStep v s j
+    let r2 := r1.1.dlStep v m
+    let r3 := if r2.1.msgs.length = m + 2 then r2.1.dlStep v (m + 1) else (r2.1, [])
+    (r3.1, r1.2 ++ r2.2 ++ r3.2)
 
 /-- the store that acts in a step (whose state the transcript shows afterwards) -/
 def PSt.acting (p : PSt) : SStep → Option Nat
   | .w s _ _ => some s
   | .tick s _ => some s
   | .dl m => (p.msgs[m]?).map (·.dst)
+  | .round s _ => some s
+
+/-- the stores whose state a step may change -/
+def PSt.actors (p : PSt) : SStep → List Nat
+  | .round s j =>
+    match p.peersOf s with
+    | [] => [s]
+    | q :: qs => let d := (q :: qs).getD (j % (q :: qs).length) q; if d = s then [s] else [s, d]
+  | x => (p.acting x).toList
 
 /-! ### per-key replica systems -/
 
